@@ -36,18 +36,20 @@ ApplyOutputs(w, ix, t, num, ti, o, S) ==
                              !.hit   = TRUE],
              t, num, ti, o + 1, S)
 
-RECURSIVE ApplyInputs(_, _, _, _, _, _, _, _)
+RECURSIVE ApplyInputs(_, _, _, _, _, _, _, _, _)
 \* local: transactions of the same block seen so far: tx -> its index
-ApplyInputs(w, ix, t, num, ti, ii, S, local) ==
+\* db: the index as stored BEFORE this block's write batch (get_transaction reads the database,
+\* which does not see the puts of the batch being built); the block-local map is consulted first
+ApplyInputs(w, ix, t, num, ti, ii, S, local, db) ==
     IF ii >= Len(TxOf(w, t).ins) THEN ix
     ELSE LET prev == TxOf(w, t).ins[ii + 1]
              pt == prev[1]
              po == prev[2]
              \* get_transaction(prev) from the store, else the block-local map
              gen == IF pt = 0 THEN <<>>
-                    ELSE IF StoredTx(ix, pt) # {}
-                         THEN LET e == CHOOSE e \in StoredTx(ix, pt) : TRUE IN <<e[2], e[3]>>
                     ELSE IF pt \in DOMAIN local THEN <<num, local[pt]>>
+                    ELSE IF StoredTx(db, pt) # {}
+                         THEN LET e == CHOOSE e \in StoredTx(db, pt) : TRUE IN <<e[2], e[3]>>
                     ELSE <<>>
              ks == IF gen = <<>> \/ pt = 0 THEN {}
                    ELSE IF po + 1 > Len(TxOf(w, pt).outs) THEN {}
@@ -58,20 +60,20 @@ ApplyInputs(w, ix, t, num, ti, ii, S, local) ==
                              !.hist  = @ \cup {<<k, num, ti, ii, 0, t>> : k \in ks},
                              !.txs   = {e \in @ : e[1] # t} \cup {<<t, num, ti>>},
                              !.hit   = TRUE],
-             t, num, ti, ii + 1, S, local)
+             t, num, ti, ii + 1, S, local, db)
 
-RECURSIVE ApplyTxs(_, _, _, _, _, _, _)
-ApplyTxs(w, ix, b, num, k, S, local) ==
+RECURSIVE ApplyTxs(_, _, _, _, _, _, _, _)
+ApplyTxs(w, ix, b, num, k, S, local, db) ==
     IF k > Len(w.btx[b]) THEN ix
     ELSE LET t == w.btx[b][k]
              ti == k - 1
-             ix1 == ApplyInputs(w, ix, t, num, ti, 0, S, local)
+             ix1 == ApplyInputs(w, ix, t, num, ti, 0, S, local, db)
              ix2 == ApplyOutputs(w, ix1, t, num, ti, 0, S)
-         IN ApplyTxs(w, ix2, b, num, k + 1, S, local @@ (t :> ti))
+         IN ApplyTxs(w, ix2, b, num, k + 1, S, local @@ (t :> ti), db)
 
 \* Storage::filter_block for block b with the registered script keys S
 FilterBlock(w, ix, b, S) ==
-    LET r == ApplyTxs(w, [ix EXCEPT !.hit = FALSE], b, Num(w, b), 1, S, <<>>) IN
+    LET r == ApplyTxs(w, [ix EXCEPT !.hit = FALSE], b, Num(w, b), 1, S, <<>>, ix) IN
     IF r.hit
     THEN [r EXCEPT !.hdrs = @ \cup {b},
                    !.nums = {e \in @ : e[1] # Num(w, b)} \cup {<<Num(w, b), b>>}]
